@@ -32,7 +32,7 @@ def knownRows : List (OpK × Kind × Cat) := [
 
 /-- rows that were findings of the first round and were repaired in typedpy: the `return value` short cuts
     of Array/Deque/Map.serialize (commit 5e8a8ad: fast serialization and `<field>.serialize` handed out the
-    stored collection) the Set field without `items` (commit d7f6fe4: kept the caller's set), the schema default (commit c0c3c23) and OneOf / AllOf (commit 95931f6) -/
+    stored collection) the Set field without `items` (commit d7f6fe4: kept the caller's set), the schema default (commit c0c3c23) and OneOf / AllOf (commit 89fd84a) -/
 def fixedRows : List (OpK × Kind × Cat) := [
   (.fieldSerialize, .array, .number), (.fieldSerialize, .array, .string), (.fieldSerialize, .array, .untyped),
   (.fieldSerialize, .deque, .untyped), (.fieldSerialize, .map, .untyped),
@@ -41,7 +41,7 @@ def fixedRows : List (OpK × Kind × Cat) := [
   (.construct, .set, .untyped), (.setattr, .set, .untyped),
   -- commit c0c3c23: structure_to_schema put a field's non-callable mutable default live into the schema
   (.toSchema, .default, .any),
-  -- commit 95931f6: OneOf stores what its single matched option built, AllOf what its first option built (they kept the
+  -- commit 89fd84a (supersedes 95931f6): OneOf / AllOf store a private deep copy of the given value (they kept the
   -- caller's own object)
   (.construct, .oneOf, .coll), (.construct, .oneOf, .inline), (.construct, .oneOf, .wrap),
   (.construct, .allOf, .coll), (.construct, .allOf, .inline), (.construct, .allOf, .wrap),
